@@ -8,9 +8,14 @@
   subscripting the builtin `dict` (the *type*) yields a `types.GenericAlias`.  The I/O half of the
   property is carried by the external-call whitelist tie (SqTie.Imports) and the audit-hook
   monitor, not by a semantic theorem about CPython.
+  [B] `every_builtin_returns_plain_data` (SqLemmas/PlainAll.lean, one lemma per entry of the table, 42 entries): plain
+  arguments, a plain heap and plain regex-engine answers give a plain result and leave heap and answers plain — the
+  ONLY exception being an index read whose container is the type object `dict` (D15).  `copy.deepcopy`, all arithmetic
+  primitives and the in-place operators are covered on the way.  Pending: the same invariant for whole machine runs.
 -/
 import Sq.Machine
 import SqProps.C13
+import SqLemmas.PlainAll
 namespace SqProps.C02
 open Sq
 
@@ -71,5 +76,30 @@ theorem dict_alias_counterexample (s : BState) (k : Val) :
 theorem other_callables_not_subscriptable (s : BState) (ps : List Op) (b : Op) (vm : Nat) (k : Val) :
     pyGetItem s (.closure ps b vm) k = .error .typeError := by
   simp [pyGetItem]
+
+/-- **[B] every builtin returns plain data**: for every entry of the builtin table, all argument lists and states —
+    if no argument, no heap object and no regex-engine answer contains a non-plain Python object, then neither does the
+    result, the heap afterwards, nor the answers left; unless the first argument is the type object `dict` (D15) -/
+theorem every_builtin_returns_plain_data : ∀ p, p ∈ callPureTable → ∀ args s v s', AllNP args → StNP s →
+    args.head? ≠ some (.builtin "dict") → p.2 args s = .ok (v, s') → NP v ∧ StNP s' := table_plain
+
+theorem builtin_call_returns_plain_data (name : String) (args : List Val) (s : BState) (v : Val) (s' : BState)
+    (ha : AllNP args) (hs : StNP s) (hnd : args.head? ≠ some (.builtin "dict"))
+    (h : callPure name args s = .ok (v, s')) : NP v ∧ StNP s' := callPure_plain name args s v s' ha hs hnd h
+
+/-- `NP` really excludes the non-plain objects, at any depth -/
+theorem np_excludes_opaque (k : String) (vs ws : List Val) : ¬ NP (.tuple (vs ++ [.tuple (.opaque k :: ws)])) := by
+  intro h
+  cases h with
+  | tuple hall =>
+    have := hall (.tuple (.opaque k :: ws)) (by simp)
+    cases this with
+    | tuple h2 =>
+      have := h2 (.opaque k) (by simp)
+      cases this
+
+/-- stored copies are plain too: `copy.deepcopy` of plain data in a plain heap -/
+theorem deepcopy_returns_plain_data {h : Heap} {v v' : Val} {h' : Heap} (hh : HeapNP h) (hv : NP v)
+    (hc : deepcopy' h v = .ok (v', h')) : HeapNP h' ∧ NP v' := deepcopy'_np hh hv hc
 
 end SqProps.C02
